@@ -114,7 +114,7 @@ fn exhaustive_matchers(thorough: bool) -> Vec<String> {
     }
     // repetitions: inner x separator x operator x delimiter
     let inner: &[&str] = &["", "$a:expr", "a", "$a:expr => $b:expr", "$a:ident : $b:ty", ",", "$a:tt ,", "a $b:tt", "$($a:tt)*", "$($a:tt),+ ;", "(a)", "$a:expr ;"];
-    let seps: &[&str] = &["", ",", ";", "=>", "a", "$", "::", "'a", "1", "a b", "(x)", "/// d\n"];
+    let seps: &[&str] = &["", ",", ";", "=>", "a", "$", "::", "'a", "1", "a b", "(x)", "/// d\n", "/", "-"];
     let ops: &[&str] = &["*", "+", "?", "", "a", "* *", "? ,", "+ $x:tt"];
     let delims: &[(&str, &str)] = &[("(", ")"), ("[", "]"), ("{", "}")];
     for i in inner {
@@ -379,7 +379,7 @@ fn undo_cases(o: &mut Outcome, rng: &mut Rng, thorough: bool) {
         bodies.push(t);
     }
     // the order-dependent shape (known finding MAC-UNDO-ORDER) is an enumerated probe, not part of the stream
-    bodies.retain(|b| !undo_order_shape(b));
+    bodies.retain(|b| !b.trim().is_empty() && !undo_order_shape(b));
     let config = mk_cfg((false, 4, 100), false, true);
     let mut reqs = vec![];
     let mut seen = vec![];
@@ -568,7 +568,7 @@ fn call_cases(o: &mut Outcome, rng: &mut Rng, thorough: bool) {
     snippets.sort();
     snippets.dedup();
     for chunk in snippets.chunks(40) {
-        let src: String = chunk.iter().map(|s| format!("{};\n", s)).collect();
+        let src: String = chunk.iter().map(|s| format!("{}{}\n", s, if s.ends_with('}') { "" } else { ";" })).collect();
         if let Some(Ok(calls)) = guard(|| hm::macro_calls(&src, &config)) {
             for c in calls {
                 o.push("corr", "mac.style", format!("mac.style {}", enc_str(&c.snippet)), c.style.to_string(), format!("macro_style of `{}`", c.snippet), c.snippet.contains("/*"));
@@ -829,6 +829,8 @@ fn known_dirty_matcher(m: &str) -> bool {
     let toks: Vec<&str> = m.split_whitespace().collect();
     toks.windows(2).any(|w| w[0].chars().all(|c| c.is_ascii_digit() || c == '_') && w[0].chars().next().map(|c| c.is_ascii_digit()).unwrap_or(false) && w[1].starts_with('.'))
         || toks.windows(2).any(|w| (w[0] == "2u8" || w[0] == "0x1f") && w[1].starts_with('.'))
+        // MAC-POUND-STR: `#` and a following string literal are printed without a blank (`# "s"` -> `#"s"`, a reserved prefix in edition 2024)
+        || toks.windows(2).any(|w| w[0].ends_with('#') && w[1].starts_with('"'))
 }
 
 fn known_dirty_body(b: &str) -> bool {
@@ -845,6 +847,13 @@ fn probes(o: &mut Outcome) {
         let r = fmt(src, vec![kv("format_macro_matchers", true)]);
         let a = equiv(src, &r.out);
         o.probes.push(json!({"id": "MAC-INT-DOT", "fails": a != "ok", "what": "format_macro_matchers prints an integer literal and a following `.` without a blank: the matcher `(1 . 5)` becomes `(1.5)`, one float literal", "detail": format!("output {:?}; validator: {}", r.out, a)}));
+    }
+    // MAC-POUND-STR
+    {
+        let src = "macro_rules! m {\n    (# \"s\") => {};\n}\n";
+        let r = fmt(src, vec![kv("format_macro_matchers", true)]);
+        let a = equiv(src, &r.out);
+        o.probes.push(json!({"id": "MAC-POUND-STR", "fails": a != "ok", "what": "format_macro_matchers prints `#` and a following string literal without a blank: `(# \"s\")` becomes `(#\"s\")`, which rustc_lexer reads as a guarded-string prefix (reserved, an error in edition 2024)", "detail": format!("output {:?}; validator: {}", r.out, a)}));
     }
     // MAC-UNDO-ORDER: the result depends on the iteration order of a HashMap; 24 runs see both orders with probability 1 - 2^-23
     {
